@@ -5,7 +5,6 @@ import (
 	"encoding/binary"
 	"encoding/hex"
 	"fmt"
-	"strings"
 	"time"
 
 	"github.com/btcsuite/btcd/blockchain"
@@ -97,11 +96,8 @@ func (a *btcAd) inspect(w *hsenv.Sim, rootH uint64) view {
 	ns := w.Reader()
 	v := view{Stored: map[string]rec{}, Main: map[uint64]string{}}
 	pre := hsenv.HSPrefix(hscommon.BLOCK_HEADER, a.chain)
-	for _, kv := range w.Dump() {
-		if !strings.HasPrefix(kv.K, pre) {
-			continue
-		}
-		hb := []byte(kv.K[len(pre):])
+	for _, k := range w.Keys(pre) {
+		hb := []byte(k[len(pre):])
 		hx := hex.EncodeToString(hb)
 		var ch chainhash.Hash
 		if err := ch.SetBytes(hb); err != nil {
